@@ -200,6 +200,9 @@ def _case_bin(spec, idx, ctx):
         ctx.check(r is None, "inplace_returns_value", "bin(modify_in_place=True) returned %r" % type(r).__name__, **fields)
         res = ds
     else:
+        if idx % 2:
+            ds.bin(fac_arg, **kw)  # history: an earlier copying call on the same source must not change the outcome of the next one
+            ctx.count("copying_call_repeated_on_same_source")
         res = ds.bin(fac_arg, **kw)
     a2f = dict(zip(axes, factors))
     exp_shape = tuple(shape[i] // a2f[i] if i in a2f else shape[i] for i in range(len(shape)))
@@ -299,7 +302,7 @@ def _rs_shape(rng, ndim):
     return G.rand_shape(rng, ndim, max_len={1: 24, 2: 12, 3: 7, 4: 5}[ndim], max_total=1500)
 
 
-def _rs_call(ds, lens, axes_arg, arg_form, shape, axes, inplace, ctx, fields, free=None):
+def _rs_call(ds, lens, axes_arg, arg_form, shape, axes, inplace, ctx, fields, free=None, warm=False):
     kw = {}
     if axes_arg is not None:
         kw["axes"] = axes_arg
@@ -313,6 +316,9 @@ def _rs_call(ds, lens, axes_arg, arg_form, shape, axes, inplace, ctx, fields, fr
         r = ds.fourier_resample(modify_in_place=True, **kw)
         ctx.check(r is None, "inplace_returns_value", "fourier_resample(modify_in_place=True) returned %r" % type(r).__name__, **fields)
         return ds
+    if warm:
+        ds.fourier_resample(**kw)  # history: an earlier copying call on the same source must not change the outcome of the next one
+        ctx.count("copying_call_repeated_on_same_source")
     return ds.fourier_resample(**kw)
 
 
@@ -378,7 +384,7 @@ def _case_rs(spec, idx, ctx):
     if sub == "laws":
         ds = _make(ctx, rng, a)
         o0, s0 = _cal(ds)
-        res = _rs_call(ds, lens, axes_arg, arg_form, shape, axes, inplace, ctx, fields, free=free_factors)
+        res = _rs_call(ds, lens, axes_arg, arg_form, shape, axes, inplace, ctx, fields, free=free_factors, warm=bool(idx % 2))
         if not shape_ok(res):
             return
         out = np.asarray(res.array)
@@ -519,6 +525,9 @@ def _case_padcrop(spec, idx, ctx):
         ctx.check(r is None, "inplace_returns_value", "pad(modify_in_place=True) returned %r" % type(r).__name__, **fields)
         padded = ds
     else:
+        if idx % 2:
+            ds.pad(output_shape=osh, **kw)  # history: see bin
+            ctx.count("copying_call_repeated_on_same_source")
         padded = ds.pad(output_shape=osh, **kw)
     # the pad widths of "symmetric padding to output_shape": floor before, ceil after
     before = [max(0, (m - n) // 2) for m, n in zip(out_shape, shape)]
@@ -545,6 +554,8 @@ def _case_padcrop(spec, idx, ctx):
         ctx.check(r is None, "inplace_returns_value", "crop(modify_in_place=True) returned %r" % type(r).__name__, **fields)
         back = padded
     else:
+        if idx % 2:
+            padded.crop(cw, **ckw)
         back = padded.crop(cw, **ckw)
     ba = np.asarray(back.array)
     ctx.check(ba.shape == a.shape and ba.dtype == a.dtype and np.array_equal(ba, a), "padcrop_roundtrip", lambda: "%s: crop %r %r returned shape %s" % (what(), cw, ckw, ba.shape), **fields)
